@@ -27,6 +27,11 @@ func runC16(c *Ctx) {
 	runC06On(c, "list/", []string{"container/list"}, 20)
 	R.Rule("no-extra-state", "Queue holds nothing but the List (no side storage that could reorder or resurrect elements)", 1)
 
+	R.Rule("method-frame", "every function of package lists, other than the modelled Queue/Stack methods, that has a Queue or a Stack as receiver or parameter writes nothing but its own locals (effect summary): no added method or helper changes the container behind Push/Pop/Enqueue/Dequeue", 0)
+	typeFrame(c, "method-frame", "lists", []string{"Queue", "Stack"}, map[string]bool{
+		"lists.(*Queue).Enqueue": true, "lists.(*Queue).Dequeue": true, "lists.(*Queue).Peek": true, "lists.(*Queue).Len": true,
+		"lists.(*Stack).Push": true, "lists.(*Stack).Pop": true, "lists.(*Stack).Peek": true})
+
 	listField := c.P.FieldOf("lists", "Queue", "list")
 	if listField == nil {
 		R.Unproven("queue-ends", "lists.Queue", "anchor", "", "Queue has no field named list")
